@@ -32,6 +32,10 @@ ASSUMPTIONS = [
     "objects in the store passed admission (validation + name-conflict check) against that same store",
     "client connection settings (rest config) are outside the view, as the property says",
     "rule matching inside MatchAttributes is exercised on the verb only (rule semantics are C01)",
+    "limits are observed twice per schema: what GetFlowSchema(name).String() reports and what the limiter enforces "
+    "(max-in-flight: TryAcquire admitted by the idle bucket, counted; token bucket: rate and burst of the client-go "
+    "limiter TryAcquire consults, read through an add-only accessor - no clock involved); the model's notion of a "
+    "schema's limits is the enforced one (enforced = configured), so C11_converges covers it unchanged",
 ]
 HARNESS_CHUNK = 40
 COQ_SHARD = 30
